@@ -129,6 +129,10 @@ pub trait Property {
     }
     /// Hook run once in every process before anything else (e.g. install vmem hooks).
     fn init() {}
+    /// Decode raw fuzzer bytes into a case (coverage-guided targets and `--replay` of fuzz artifacts).
+    fn from_fuzz_bytes(_data: &[u8]) -> Option<Self::Case> {
+        None
+    }
     /// Odd-numbered workers run the build with overflow checks and debug assertions (profile relchk).
     fn use_checked_build() -> bool {
         false
@@ -392,15 +396,25 @@ fn parent<P: Property>(tier: Tier, seed: u64, replay: Option<String>, cases_over
     let mut env = Env::new(&root.join("parent"), tier, 99);
     // --replay FILE: strict re-execution of one saved case.
     if let Some(f) = replay {
-        let text = match std::fs::read_to_string(&f) {
-            Ok(t) => t,
+        let text = match std::fs::read(&f) {
+            Ok(t) => String::from_utf8_lossy(&t).to_string(),
             Err(e) => {
                 eprintln!("cannot read {}: {}", f, e);
                 return 2;
             }
         };
         let v: Value = serde_json::from_str(&text).unwrap_or(Value::Null);
-        let case = if v.get("case").is_some() { v["case"].clone() } else { v };
+        let case = if v.get("case").is_some() {
+            v["case"].clone()
+        } else if v.is_null() {
+            // not JSON: a fuzzer artifact (raw bytes)
+            match std::fs::read(&f).ok().and_then(|b| P::from_fuzz_bytes(&b)) {
+                Some(c) => serde_json::to_value(&c).unwrap_or(Value::Null),
+                None => Value::Null,
+            }
+        } else {
+            v
+        };
         return match replay_value::<P>(&case, &mut env) {
             Ok(Verdict { fail: Some(msg), .. }) => {
                 println!("replay fails: {}", msg);
